@@ -301,6 +301,13 @@ func rootLeafRule(c *an.Ctx, rootID, leafID string, only func(f *an.Fn) bool, mi
 					}
 				}
 				if an.NamedOf(o.Type()) == tmpl && rhs != nil {
+					// a copy of a template variable that is known to be the end of its chain is the end of its chain
+					copiedEnd := false
+					if rid, ok := an.Unparen(rhs).(*ast.Ident); ok {
+						if ro := an.ObjOf(info, rid); ro != nil && ro != o && st.Get(chainEnd(ro)) != "" && st.Get(chainEnd(ro)) == fmt.Sprintf("@%d", st.Int(gen(ro))) {
+							copiedEnd = true
+						}
+					}
 					st.Set(chainEnd(o), "") // whatever was known about the end of the chain concerned the old value
 					// t = t.extends advances the generation; any other assignment (t, err := GetTemplate) resets
 					if p.FieldKey(info, rhs) == "Template.extends" {
@@ -309,6 +316,9 @@ func rootLeafRule(c *an.Ctx, rootID, leafID string, only func(f *an.Fn) bool, mi
 						}
 					} else {
 						st.SetInt(gen(o), 0)
+					}
+					if copiedEnd {
+						st.Set(chainEnd(o), "@0")
 					}
 				}
 				if rhs != nil && p.FieldKey(info, rhs) == "Template.Root" {
@@ -618,30 +628,55 @@ func c08lookup(c *an.Ctx) {
 	// --- getBlock walks the parent chain
 	if gb := c.Fn("C08.lookup", "(*scope).getBlock"); gb != nil {
 		ginfo := gb.Info()
-		ok := false
-		an.InspectOwn(gb, func(n ast.Node) bool {
-			fs, isFor := n.(*ast.ForStmt)
-			if !isFor || fs.Cond == nil || !strings.Contains(an.Str(fs.Cond), ".parent != nil") {
-				return true
+		// decided on the paths: the scope cursor only ever advances to its parent; every return hands back the
+		// result of a lookup of the requested name in the scope the cursor is at; and a "not found" is
+		// returned only where that scope has no parent
+		ok := true
+		nRet := 0
+		nameParam := an.Param(gb, 0)
+		hooks := an.Hooks{PreAssign: func(x *an.Explorer, lhs, rhs ast.Expr, stmt ast.Node, st *an.State) {
+			if rhs != nil && p.FieldKey(ginfo, rhs) == "scope.parent" && an.Str(lhs) == an.Str(rhs.(*ast.SelectorExpr).X) {
+				st.Set("looked", "") // the cursor moved: what was looked up belongs to the previous scope
+				return
 			}
-			adv, look := false, false
-			for _, st := range fs.Body.List {
-				if as, isAs := st.(*ast.AssignStmt); isAs {
-					if len(as.Lhs) == 1 && p.FieldKey(ginfo, as.Rhs[0]) == "scope.parent" && an.Str(as.Lhs[0]) == an.Str(as.Rhs[0].(*ast.SelectorExpr).X) {
-						adv = true
-					}
-					if len(as.Rhs) == 1 {
-						if ix, isIx := an.Unparen(as.Rhs[0]).(*ast.IndexExpr); isIx && p.FieldKey(ginfo, ix.X) == "scope.blocks" {
-							look = true
-						}
+			if as, isAs := stmt.(*ast.AssignStmt); isAs && len(as.Rhs) == 1 && len(as.Lhs) == 2 {
+				if ix, isIx := an.Unparen(as.Rhs[0]).(*ast.IndexExpr); isIx && p.FieldKey(ginfo, ix.X) == "scope.blocks" {
+					if id, isId := an.Unparen(ix.Index).(*ast.Ident); isId && nameParam != nil && an.ObjOf(ginfo, id) == types.Object(nameParam) {
+						st.Set("looked", an.Str(as.Lhs[1]))
 					}
 				}
 			}
-			if adv && look {
-				ok = true
+		}}
+		x := p.NewExplorer(gb, hooks)
+		x.Run(nil)
+		c.States += x.Visited
+		for _, ex := range x.Exits {
+			if ex.Kind != an.ExitReturn {
+				continue
 			}
-			return true
-		})
+			nRet++
+			found := ex.State.Get("looked")
+			if found == "" {
+				ok = false
+				continue
+			}
+			if an.FactIs(ex.State, found, true) {
+				continue // found in the scope the cursor is at
+			}
+			atRoot := false
+			for k, v := range ex.State.Facts {
+				pk := an.PlainKey(k)
+				if v && (strings.HasSuffix(pk, ".parent == nil") || strings.HasPrefix(pk, "nil == ") && strings.HasSuffix(pk, ".parent")) {
+					atRoot = true
+				}
+			}
+			if !atRoot {
+				ok = false
+			}
+		}
+		if nRet == 0 || x.Undecided != "" {
+			ok = false
+		}
 		c.Check(ok, "C08.lookup", "(*scope).getBlock/parent-walk", gb.Pos(), "getBlock walks the parent chain until the name is found", "getBlock does not walk the scope's parent chain: blocks of the executing template are invisible inside nested scopes")
 	}
 	// --- imported roots are never executed
